@@ -9,6 +9,10 @@ open OPM OPM.Wire OPM.Access
   `req <route index> <id> <user roles> <units> <recent engines> <runs>`   → the endpoint's answer
   `reqmut …`  self-test mutant: only the first required role of every object counts
   roles: `~` (none) or `enc;enc;…`; objects: `~` or `encid:roles|encid:roles|…`
+  `ev connect <u> <roles>` | `ev uod <u> <roles>` | `ev start <u> <run>` | `ev stop <u> <run>` | `ev disc <u>`
+       one engine event applied to the driver's state (`RESET` = empty aggregator) → the state:
+       `<online id:roles:run|…>\t<recent id:roles:run|…>\t<runs id:roles|…>`
+  `probe <route index> <id> <user roles>`  → the endpoint's answer in the world of the current state
 answers: `notfound` | `forbidden <roles>` | `pass` | `list <ids>` | `illformed` -/
 
 def parseList (s : String) (sep : String) : List String :=
@@ -36,23 +40,53 @@ def showResp : Resp → String
   | .list ids => "list " ++ showStrs ids
   | .illFormed => "illformed"
 
+def showRun : Option String → String
+  | none => "~"
+  | some r => encodeStr r
+
+def showObjs (l : List String) : String := if l.isEmpty then "~" else "|".intercalate l
+
+def showState (s : AState) : String :=
+  showObjs (s.online.map (fun x => encodeStr x.id ++ ":" ++ showStrs x.roles ++ ":" ++ showRun x.run)) ++ "\t" ++
+  showObjs (s.recent.map (fun x => encodeStr x.id ++ ":" ++ showStrs x.roles ++ ":" ++ showRun x.run)) ++ "\t" ++
+  showObjs (s.runs.map (fun x => encodeStr x.id ++ ":" ++ showStrs x.required))
+
+def parseEvent : List String → Option Event
+  | ["connect", u, roles] => do some (.connect (← decodeStr u) (← parseRoles roles))
+  | ["uod", u, roles] => do some (.uodInfo (← decodeStr u) (← parseRoles roles))
+  | ["start", u, r] => do some (.runStarted (← decodeStr u) (← decodeStr r))
+  | ["stop", u, r] => do some (.runStopped (← decodeStr u) (← decodeStr r))
+  | ["disc", u] => do some (.disconnect (← decodeStr u))
+  | _ => none
+
 def firstOnly (l : List Res) : List Res := l.map (fun r => ⟨r.id, r.required.take 1⟩)
 
-def step (_ : Unit) (line : String) : Unit × String :=
+def step (st : AState) (line : String) : AState × String :=
   match fields line with
   | [op, idx, id, roles, units, recent, runs] =>
-    if op ≠ "req" && op ≠ "reqmut" then ((), "bad-op") else
+    if op ≠ "req" && op ≠ "reqmut" then (st, "bad-op") else
     match idx.toNat?, decodeStr id, parseRoles roles, parseObjs units, parseObjs recent, parseObjs runs with
     | some i, some id, some roles, some units, some recent, some runs =>
       match Gen.Routes.routes[i]? with
       | some r =>
         let w : World := if op = "reqmut" then ⟨firstOnly units, firstOnly recent, firstOnly runs⟩
                          else ⟨units, recent, runs⟩
-        ((), showResp (respond r w id roles))
-      | none => ((), "bad-op")
-    | _, _, _, _, _, _ => ((), "bad-op")
-  | _ => ((), "bad-op")
+        (st, showResp (respond r w id roles))
+      | none => (st, "bad-op")
+    | _, _, _, _, _, _ => (st, "bad-op")
+  | "ev" :: rest =>
+    match parseEvent rest with
+    | some e => let st' := OPM.Access.step st e; (st', showState st')
+    | none => (st, "bad-op")
+  | ["probe", idx, id, roles] =>
+    match idx.toNat?, decodeStr id, parseRoles roles with
+    | some i, some id, some roles =>
+      match Gen.Routes.routes[i]? with
+      | some r => (st, showResp (respond r (worldOf st) id roles))
+      | none => (st, "bad-op")
+    | _, _, _ => (st, "bad-op")
+  | _ => (st, "bad-op")
 
 end Driver.Access
 
-def main : IO Unit := Driver.runLoop () Driver.Access.step
+def main : IO Unit := Driver.runLoop OPM.Access.AState.init Driver.Access.step
